@@ -95,3 +95,58 @@ def r_initobj(root):
         got = {k: o1.own[k] for k in want}
         rep(got == want and all(type(got[k]) is type(want[k]) for k in want), "defaults of the single-valued attributes", "single-valued attributes start as %s; documented %s (False for ?=, None for references, and for base types None or, with auto_init_attributes, the type's default)" % (got, want))
     return inst, out
+
+def r_mmapi(root):
+    """C04.g / C13.g  the conversion and processor API of the meta-model, decided by evaluation on a meta-model object
+    built by interpreting the analysed TextXMetaModel.__init__ (sa/objmodel.py; nothing of textX runs):
+      C04.g  process(text, base type) gives the documented Python value AND type for sample literals of every base type,
+             whatever was converted before (the same text as FLOAT and then as INT is a float and then an int);
+             a type without processor leaves the value as it is
+      C13.g  register_obj_processors replaces the previous registration: the processor that runs for a type is always the
+             one of the latest registration, the built-in conversion comes back when it is no longer overridden, and
+             has_obj_processor agrees with what process would run"""
+    from sa import objmodel
+    out = []; inst = 0
+    me, base = objmodel.new_metamodel(root)
+    def proc(text, typ):
+        k, v = objmodel.call_method(root, me, base, "process", text, typ, "model.file", 2, 1)
+        return (k, v if k == "ret" else v.cls)
+    def rep(prop, clause, fn_, what, ok, msg, witness=""):
+        nonlocal inst
+        inst += 1; ob(prop, clause, MM, fn_, what, ok)
+        if not ok: out.append(Finding(prop, clause, MM, fn_, what, msg, witness=witness))
+    table = [("BOOL", "true", True), ("BOOL", "True", True), ("BOOL", "TRUE", True), ("BOOL", "1", True), ("BOOL", "false", False), ("BOOL", "False", False), ("BOOL", "0", False),
+             ("FLOAT", "7", 7.0), ("INT", "7", 7), ("STRICTFLOAT", "7.0", 7.0), ("INT", "-3", -3), ("INT", "+4", 4), ("INT", "007", 7), ("FLOAT", "1e3", 1000.0), ("FLOAT", ".5", 0.5), ("FLOAT", "-2.5", -2.5), ("INT", "7", 7), ("FLOAT", "7", 7.0),
+             ("INT", "9007199254740993", 9007199254740993), ("FLOAT", "9007199254740993", 9007199254740992.0), ("INT", "9007199254740993", 9007199254740993),
+             ("STRING", '"a\\"b"', 'a"b'), ("STRING", "'it\\'s'", "it's"), ("STRING", '"it\\\'s"', "it\\'s"), ("STRING", '""', ""), ("STRING", "'7'", "7"), ("INT", "7", 7),
+             ("NoSuchType", "as it is", "as it is"), ("ID", "name", "name")]
+    for typ, text, want in table:
+        k, v = proc(text, typ)
+        ok = k == "ret" and v == want and type(v) is type(want)
+        rep("C04", "C04.g", "TextXMetaModel.process", "%s %r -> %r" % (typ, text, v), ok, "the text %r matched by %s is converted to %s; documented: %r (%s)%s" % (text, typ, "%r (%s)" % (v, type(v).__name__) if k == "ret" else "an exception %s" % v, want, type(want).__name__, " - the result must not depend on what was converted before" if k == "ret" and v == want else ""), witness="attr=%s on %r" % (typ, text))
+    # ---- C13.g
+    calls_ = []
+    def mk(tag):
+        def p(v): calls_.append(tag); return (tag, v)
+        return pyeval.PyFn(p)
+    def reg(tab):
+        k, v = objmodel.call_method(root, me, base, "register_obj_processors", tab)
+        if k != "ret": raise AnalysisError("register_obj_processors raises %s under evaluation" % v.cls)
+    def has(t_):
+        k, v = objmodel.call_method(root, me, base, "has_obj_processor", t_); return v if k == "ret" else "raises " + v.cls
+    steps = [({"INT": mk("p1"), "Rule": mk("r1")}, [("INT", "7", ("p1", "7")), ("Rule", "obj", ("r1", "obj")), ("FLOAT", "7", 7.0)], {"INT": True, "Rule": True, "Other": False}),
+             ({"INT": mk("p2")}, [("INT", "7", ("p2", "7")), ("Rule", "obj", "obj")], {"INT": True, "Rule": False}),
+             ({"Rule": mk("r3")}, [("INT", "7", 7), ("Rule", "obj", ("r3", "obj"))], {"Rule": True, "Other": False}),
+             ({}, [("INT", "7", 7), ("Rule", "obj", "obj"), ("BOOL", "1", True)], {"Rule": False})]
+    for i_, (tab, checks, hasses) in enumerate(steps):
+        reg(tab)
+        for typ, text, want in checks:
+            k, v = proc(text, typ)
+            v = tuple(v) if isinstance(v, list) else v
+            ok = k == "ret" and v == want and type(v) is type(want)
+            rep("C13", "C13.g", "TextXMetaModel.register_obj_processors / process", "registration %d (%s): %s %r -> %r" % (i_ + 1, sorted(tab), typ, text, v), ok,
+                "after registration number %d (for %s, replacing the earlier ones) the value %r of %s is processed to %r; documented %r: the latest registration alone decides which processor runs, the built-in conversion applies where it does not override it" % (i_ + 1, sorted(tab) or "nothing", text, typ, v, want), witness="register_obj_processors twice on one meta-model, load a model after each")
+        for t_, want in hasses.items():
+            got = has(t_)
+            rep("C13", "C13.g", "TextXMetaModel.has_obj_processor", "registration %d: has_obj_processor(%r) -> %r" % (i_ + 1, t_, got), got is want, "after registration number %d (for %s) has_obj_processor(%r) answers %r, documented %r" % (i_ + 1, sorted(tab) or "nothing", t_, got, want))
+    return inst, out
